@@ -105,6 +105,10 @@ class GotranPythonCodePrinter(PythonCodePrinter):
     def _print_Or(self, expr):
         return self._print_logical("logical_or", expr.args)
 
+    def _print_Not(self, expr):
+        # The python operator 'not' only works for scalars
+        return f"numpy.logical_not({self._print(expr.args[0])})"
+
     # def _print_Equality(self, expr):
     #     lhs, rhs = expr.args
     #     return f"numpy.isclose({self._print(lhs)}, {self._print(rhs)})"
